@@ -1,6 +1,8 @@
 package decorator
 
 import (
+	"context"
+	"encoding/json"
 	"fmt"
 	"os"
 	"testing"
@@ -16,6 +18,8 @@ import (
 
 	"github.com/go-logr/logr"
 	"k8s.io/apimachinery/pkg/runtime/schema"
+	"k8s.io/apimachinery/pkg/types"
+	"sigs.k8s.io/controller-runtime/pkg/reconcile"
 	"k8s.io/klog/v2"
 )
 
@@ -134,4 +138,35 @@ func (a *decoratorAdapter) RelatedDelete(obj any) { a.c.customize.VerifOnRelated
 func (a *decoratorAdapter) ParseKey(key string) (string, string, error) {
 	_, _, ns, name, err := splitParentQueueKey(key)
 	return ns, name, err
+}
+
+// ---- C20: Metacontroller.Reconcile driver ----
+
+type c20DecoratorDriver struct{ mc *Metacontroller }
+
+func newC20DecoratorDriver(env *vw.C20Env) *c20DecoratorDriver {
+	return &c20DecoratorDriver{mc: &Metacontroller{
+		k8sClient:            env.K8s,
+		resources:            env.W.Resources,
+		dynClient:            env.W.DynClient,
+		dynInformers:         env.Factory,
+		eventRecorder:        vw.NopRecorder{},
+		decoratorControllers: make(map[string]*decoratorController),
+		numWorkers:           2,
+		logger:               logr.Discard(),
+	}}
+}
+
+func (d *c20DecoratorDriver) Reconcile(name string) error {
+	_, err := d.mc.Reconcile(context.Background(), reconcile.Request{NamespacedName: types.NamespacedName{Name: name}})
+	return err
+}
+
+func (d *c20DecoratorDriver) Running() map[string][2]string {
+	out := map[string][2]string{}
+	for n, c := range d.mc.decoratorControllers {
+		b, _ := json.Marshal(c.dc.Spec)
+		out[n] = [2]string{fmt.Sprintf("%p", c), string(b)}
+	}
+	return out
 }
